@@ -71,6 +71,18 @@ def handle : Handler := fun cmd j =>
     let dir ← chars j "dir"
     let cs ← getStrs j "written"
     pure (Json.arr ((abortWriteOps dir (cs.map String.toList)).map Pkgcore.Driver.C24.ofOp).toArray)
+  | "c28.regen" => do
+    -- the Manifest after each regeneration of a history of package states (Model `regen` on every prefix)
+    let thin ← getBool j "thin"
+    let dir ← chars j "dir"
+    let old ← getOptStr j "old"
+    let hist ← (getArr j "hist") >>= fun a => a.mapM fun st => do
+      let scan ← (getArr st "scan") >>= fun a => a.mapM parseScanObj
+      let fetch ← (getArr st "fetch") >>= fun a => a.mapM parseFetchable
+      pure (scan, fetch)
+    let target := targetName dir (tag "Manifest")
+    let fs : Fs := match old with | some o => [(target, o)] | none => []
+    pure (Json.arr (((List.range hist.length).map fun i => optStrJ ((regen thin dir fs (hist.take (i + 1))).read target)).toArray))
   | "c28.crash" => do
     -- Manifest and temp file after the first k operations of update()
     let thin ← getBool j "thin"
